@@ -70,8 +70,10 @@ func gRVs(l []RV) string {
 	return GList(it)
 }
 
+// the servers of the harness are linked with the journal controller's configuration, so the write path of
+// partition.Service applies the limit the readers have (w_limit = max_rec)
 func gCfg(maxChunk, maxRec int64) string {
-	return fmt.Sprintf("{| max_chunk := %s; max_rec := %s |}", GZ(maxChunk), GZ(maxRec))
+	return fmt.Sprintf("{| max_chunk := %s; max_rec := %s; w_limit := %s |}", GZ(maxChunk), GZ(maxRec), GZ(maxRec))
 }
 
 // table of a parameter function: list (bytes * outcome bytes)
